@@ -359,6 +359,9 @@ def _circuit_scenarios():
             "other": CS.circuit_from_spec(other, 5),
             "operation": CS.op_from_spec(("RZ(z)", (1,))),
             "symbol_map": {CS.S("x"): CS.S("v0") + 1, CS.S("y"): 0.25},
+            # maps a caller may hand over: names instead of symbols, symbols the circuit does not use, mixed key kinds
+            "symbol_map_names": {"x": 0.5, CS.S("y"): 0.25, "unused": 1.0},
+            "symbol_map_extra": {CS.S("unused1"): 1.5, CS.S("x"): CS.S("v0"), CS.S("unused2"): CS.S("y")},
             "state": np.array([CS.S(f"a{i}") for i in range(8)], dtype=object),
         }
 
@@ -375,6 +378,8 @@ def _circuit_scenarios():
         ("circuit + circuit", lambda o: o["circuit"] + o["other"]),
         ("circuit + operation", lambda o: o["circuit"] + o["operation"]),
         ("bind", lambda o: o["circuit"].bind(o["symbol_map"])),
+        ("bind (map keyed by names and symbols)", lambda o: o["circuit"].bind(o["symbol_map_names"])),
+        ("bind (map with symbols the circuit does not use)", lambda o: (o["circuit"].bind(o["symbol_map_extra"]), o["other"].bind(o["symbol_map_extra"]), o["operation"].bind(o["symbol_map_extra"]))),
         ("inverse", lambda o: o["circuit"].inverse()),
         ("controlled", lambda o: o["circuit"].controlled(3)),
         ("to_dict / circuit_from_dict", serde),
